@@ -563,6 +563,24 @@ def generate_commit_graph(
             # Commit not found, skip
             continue
 
+    # The format cannot name a parent that is not in the graph: the slot then
+    # holds GRAPH_PARENT_MISSING, which every reader takes for "no parent".
+    # Keep only commits whose parents are all included, so that the graph
+    # never shows a commit with fewer parents than it has.
+    children: dict[ObjectID, list[ObjectID]] = {}
+    for commit_id, commit_obj in commit_map.items():
+        for parent_id in commit_obj.parents:
+            children.setdefault(parent_id, []).append(commit_id)
+    open_commits = [
+        commit_id
+        for commit_id, commit_obj in commit_map.items()
+        if any(parent_id not in commit_map for parent_id in commit_obj.parents)
+    ]
+    while open_commits:
+        commit_id = open_commits.pop()
+        if commit_map.pop(commit_id, None) is not None:
+            open_commits.extend(children.get(commit_id, ()))
+
     # Calculate generation numbers using topological sort
     generation_map: dict[bytes, int] = {}
 
